@@ -55,8 +55,8 @@ M = [
     ("m12b", "C12", "break", BS, "next_t = min(curr_t + step_size, ts[-1])", "next_t = min(curr_t + step_size, ts[-1]) if self.adaptive else min(curr_t + step_size, out_t)"),
     ("m12c", "C12", "break", BS, "                    prev_t, prev_y = curr_t, curr_y\n                    curr_y, curr_extra = self.step(curr_t, next_t, curr_y, curr_extra)",
      "                    if next_t < out_t:\n                        prev_t, prev_y = curr_t, curr_y\n                    curr_y, curr_extra = self.step(curr_t, next_t, curr_y, curr_extra)"),
-    ("m13a", "C13", "break", RH, "        f0, g0, z0 = extra0\n        # f is a drift-like quantity",
-     "        f0, g0, z0 = extra0\n        if getattr(self, '_last', None) is not None and self._last[0] is y0:\n            f0, g0, z0 = self._last[1]\n        # f is a drift-like quantity"),
+    ("m13a", "C13", "break", RH, "        y1 = y0 + (f0 + f1) * (0.5 * dt) + self.sde.prod(g0 + g1, 0.5 * dW)\n\n        return y1, (f1, g1, z1)\n\n\nclass AdjointReversibleHeun",
+     "        y1 = y0 + (f0 + f1) * (0.5 * dt) + self.sde.prod(g0 + g1, 0.5 * dW)\n        if getattr(self, '_zprev', None) is not None:\n            z1 = 0.5 * (z1 + self._zprev) if t1 - t0 > 0.2 else z1\n        self._zprev = z1\n\n        return y1, (f1, g1, z1)\n\n\nclass AdjointReversibleHeun"),
     ("m13b", "C13", "break", SD, "    if extra_solver_state is None:\n        extra_solver_state = solver.init_extra_solver_state(ts[0], y0)\n    ys, extra_solver_state = solver.integrate(y0, ts, extra_solver_state)",
      "    if extra_solver_state is None or len(extra_solver_state) == 3:\n        extra_solver_state = solver.init_extra_solver_state(ts[0], y0)\n    ys, extra_solver_state = solver.integrate(y0, ts, extra_solver_state)"),
     ("m14a", "C14", "break", BS, "if error_estimate <= 1 or step_size <= self.dt_min:", "if error_estimate <= 1 or step_size <= self.dt_min or step_size < 4 * self.dt_min:"),
